@@ -177,6 +177,15 @@ def gen_cases(tier, seed):
         for n in (1200,):
             cases.append(('long', pre + item * n + post, True, True, 'sheet', 'text'))
             cases.append(('long', pre + item * n + post, False, False, 'style' if pre.startswith('a{x') else 'sheet', 'text'))
+    # an @charset rule naming every codec Python's registry knows (text encodings, bytes-to-bytes and str-to-str transforms,
+    # idna / punycode / undefined): the parsed sheet must serialise whatever was accepted
+    import encodings.aliases
+    import pkgutil
+    names = sorted(set(encodings.aliases.aliases) | set(encodings.aliases.aliases.values())
+                   | set(m.name for m in pkgutil.iter_modules(encodings.__path__)))
+    for nm in names:
+        cases.append(('charset', '@charset "%s"; a{content:"\xe9\u4e2d"}' % nm.replace('_', rnd.choice('_-')), rnd.random() < 0.5, True,
+                      'sheet', 'text'))
     byt = [('bytes', b) for b in [b'\xff\xfe', b'\xef\xbb\xbf@charset "', b'@charset "x', b'@charset "utf-16";a', b'\x00\x00\xfe\xff',
                                   b'a{content:"\xff"}', b'@charset "ascii";\xe9', b'\xff' * 10, b'@charset "";']]
     for k, b in byt:
